@@ -1,1 +1,699 @@
-(* C05 - to be filled *)
+(* C05: lemmas - documented names, the recorded symbols of a segment, and the link-level
+   consistency of start / end / size. *)
+From Slinky Require Import Model.Types Model.Generated Model.Runtime Model.Style Model.Script Model.Writer Model.LdSem.
+From Slinky Require Import Spec.C13 Spec.C09 Spec.C05.
+From Slinky Require Import Proofs.LdLemmas Proofs.C06 Proofs.C18 Proofs.C13 Proofs.C09.
+From Coq Require Import Lia ZArith Sorted.
+
+(* ====================================================================== *)
+(* the names are spelled as documented                                     *)
+(* ====================================================================== *)
+
+Lemma doc_capitalize_eq s : doc_capitalize s = capitalize s.
+Proof. reflexivity. Qed.
+
+Lemma convert_section_name_doc sty sec :
+  convert_section_name sty sec = match sty with Splat => doc_section_upper sec | Makerom => doc_section_camel sec end.
+Proof.
+  destruct sty; [reflexivity|]. unfold convert_section_name, doc_section_camel, makerom_special_from, makerom_special_to.
+  destruct (String.eqb sec ".rodata"); [reflexivity|].
+  destruct sec as [|c r]; [reflexivity|].
+  destruct c as [[] [] [] [] [] [] [] []]; reflexivity.
+Qed.
+
+Ltac names_eq :=
+  unfold_names; match goal with sty : style |- _ => destruct sty end;
+  cbn [pick fst snd]; rewrite ?fmt2, ?fmt3, ?convert_section_name_doc; reflexivity.
+
+Lemma rom_start_doc sty seg : segment_rom_start sty seg = doc_rom_start sty seg. Proof. names_eq. Qed.
+Lemma rom_end_doc sty seg : segment_rom_end sty seg = doc_rom_end sty seg. Proof. names_eq. Qed.
+Lemma rom_size_doc sty seg : segment_rom_size sty seg = doc_rom_size sty seg. Proof. names_eq. Qed.
+Lemma vram_start_doc sty seg : segment_vram_start sty seg = doc_vram_start sty seg. Proof. names_eq. Qed.
+Lemma vram_end_doc sty seg : segment_vram_end sty seg = doc_vram_end sty seg. Proof. names_eq. Qed.
+Lemma vram_size_doc sty seg : segment_vram_size sty seg = doc_vram_size sty seg. Proof. names_eq. Qed.
+Lemma section_start_doc sty seg sec : segment_section_start sty seg sec = doc_section_start sty seg sec.
+Proof. names_eq. Qed.
+Lemma section_end_doc sty seg sec : segment_section_end sty seg sec = doc_section_end sty seg sec.
+Proof. names_eq. Qed.
+Lemma section_size_doc sty seg sec : segment_section_size sty seg sec = doc_section_size sty seg sec.
+Proof. names_eq. Qed.
+Lemma linker_offset_doc sty name : linker_offset sty name = doc_linker_offset sty name. Proof. names_eq. Qed.
+Lemma class_start_doc sty name : vram_class_start sty name = doc_class_start sty name. Proof. names_eq. Qed.
+Lemma class_end_doc sty name : vram_class_end sty name = doc_class_end sty name. Proof. names_eq. Qed.
+Lemma class_size_doc sty name : vram_class_size sty name = doc_class_size sty name. Proof. names_eq. Qed.
+
+Lemma kind_name_doc seg noload : kind_name seg noload = doc_kind_name (sg_name seg) noload.
+Proof. unfold kind_name, doc_kind_name. destruct noload; reflexivity. Qed.
+
+Lemma names_table :
+  (forall sty seg, segment_rom_start sty seg = doc_rom_start sty seg) /\
+  (forall sty seg, segment_rom_end sty seg = doc_rom_end sty seg) /\
+  (forall sty seg, segment_rom_size sty seg = doc_rom_size sty seg) /\
+  (forall sty seg, segment_vram_start sty seg = doc_vram_start sty seg) /\
+  (forall sty seg, segment_vram_end sty seg = doc_vram_end sty seg) /\
+  (forall sty seg, segment_vram_size sty seg = doc_vram_size sty seg) /\
+  (forall sty seg sec, segment_section_start sty seg sec = doc_section_start sty seg sec) /\
+  (forall sty seg sec, segment_section_end sty seg sec = doc_section_end sty seg sec) /\
+  (forall sty seg sec, segment_section_size sty seg sec = doc_section_size sty seg sec) /\
+  (forall sty name, linker_offset sty name = doc_linker_offset sty name) /\
+  (forall sty name, vram_class_start sty name = doc_class_start sty name) /\
+  (forall sty name, vram_class_end sty name = doc_class_end sty name) /\
+  (forall sty name, vram_class_size sty name = doc_class_size sty name) /\
+  (forall seg noload, kind_name seg noload = doc_kind_name (sg_name seg) noload).
+Proof.
+  repeat split; intros;
+    auto using rom_start_doc, rom_end_doc, rom_size_doc, vram_start_doc, vram_end_doc, vram_size_doc,
+      section_start_doc, section_end_doc, section_size_doc, linker_offset_doc, class_start_doc,
+      class_end_doc, class_size_doc, kind_name_doc.
+Qed.
+
+(* ====================================================================== *)
+(* the recorded symbols of an emitted segment                              *)
+(* ====================================================================== *)
+
+Lemma recorded_opt_align a : recorded_syms (opt_align a) = [].
+Proof. destruct a; reflexivity. Qed.
+
+Lemma recorded_section_start rt sty cfg seg section :
+  recorded_syms (section_symbol_start rt sty cfg seg section) =
+  if section_syms cfg then [doc_section_start sty (sg_name seg) section] else [].
+Proof.
+  unfold section_symbol_start. destruct (section_syms cfg); [|reflexivity].
+  rewrite !recorded_app, !recorded_opt_align, not_recorded_gp, <- section_start_doc. reflexivity.
+Qed.
+
+Lemma recorded_section_end sty cfg seg section :
+  recorded_syms (section_symbol_end sty cfg seg section) =
+  if section_syms cfg
+  then [doc_section_end sty (sg_name seg) section; doc_section_size sty (sg_name seg) section] else [].
+Proof.
+  unfold section_symbol_end. destruct (section_syms cfg); [|reflexivity].
+  rewrite !recorded_app, !recorded_opt_align, <- section_end_doc, <- section_size_doc. reflexivity.
+Qed.
+
+Lemma offset_form_doc rt sty seg sym : offset_form rt sty seg sym -> doc_offset_of rt sty seg sym.
+Proof. intros [name [Hn E]]. exists name. split; [exact Hn|]. rewrite <- linker_offset_doc. exact E. Qed.
+
+Lemma recorded_blank_if (rest : list string) :
+  recorded_syms (match rest with [] => [] | _ => [SBlank] end) = [].
+Proof. destruct rest; reflexivity. Qed.
+
+Lemma part_groups_recorded rt st cfg seg sections rest : forall ws s ws',
+  part_groups rt st cfg seg sections rest ws = Ok (s, ws') ->
+  exists secs, map fst secs = rest /\
+    Forall (fun so => Forall (doc_offset_of rt (linker_symbols_style st) seg) (snd so)) secs /\
+    recorded_syms s =
+    flat_map (fun so => section_symbols (linker_symbols_style st) cfg seg (fst so) (snd so)) secs.
+Proof.
+  induction rest as [|section rest IH]; intros ws s ws' H.
+  - apply ok_inj in H. inversion H; subst. exists []. repeat split; constructor.
+  - apply part_groups_cons in H. destruct H as [s1 [ws1 [s2 [E1 [E2 E]]]]]. subst.
+    destruct (IH _ _ _ E2) as [secs [Hm [Hf Hr]]].
+    exists ((section, recorded_syms s1) :: secs). split; [simpl; rewrite Hm; reflexivity|]. split.
+    + constructor; [|exact Hf]. cbn [snd]. apply forms_emit_section in E1.
+      eapply Forall_impl; [|exact E1]. intros sym. apply offset_form_doc.
+    + rewrite !recorded_app, recorded_section_start, recorded_section_end, recorded_blank_if, Hr.
+      cbn [flat_map fst snd]. unfold section_symbols at 2. rewrite <- !app_assoc. reflexivity.
+Qed.
+
+Lemma recorded_kind_start sty cfg seg noload :
+  recorded_syms (sections_kind_start sty cfg seg noload) =
+  if kind_syms cfg then [doc_vram_start sty (doc_kind_name (sg_name seg) noload)] else [].
+Proof.
+  unfold sections_kind_start. destruct (kind_syms cfg); [|reflexivity].
+  rewrite <- kind_name_doc, <- vram_start_doc. reflexivity.
+Qed.
+
+Lemma recorded_kind_end sty cfg seg noload :
+  recorded_syms (sections_kind_end sty cfg seg noload) =
+  if kind_syms cfg then [doc_vram_end sty (doc_kind_name (sg_name seg) noload);
+                         doc_vram_size sty (doc_kind_name (sg_name seg) noload)] else [].
+Proof.
+  unfold sections_kind_end. destruct (kind_syms cfg); [|reflexivity].
+  rewrite <- kind_name_doc, <- vram_end_doc, <- vram_size_doc. reflexivity.
+Qed.
+
+Lemma recorded_opt_fill seg : recorded_syms (opt_fill seg) = [].
+Proof. unfold opt_fill. destruct (fill_value seg); reflexivity. Qed.
+
+Lemma write_segment_recorded rt st cfg seg sections noload ws s ws' :
+  write_segment rt st cfg seg sections noload ws = Ok (s, ws') ->
+  exists secs, map fst secs = sections /\
+    Forall (fun so => Forall (doc_offset_of rt (linker_symbols_style st) seg) (snd so)) secs /\
+    recorded_syms s = part_symbols (linker_symbols_style st) cfg seg noload secs.
+Proof.
+  intro H. apply write_segment_inv in H. destruct H as [body [Hb E]]. subst.
+  destruct (part_groups_recorded _ _ _ _ _ _ _ _ _ Hb) as [secs [Hm [Hf Hr]]].
+  exists secs. split; [exact Hm|]. split; [exact Hf|].
+  rewrite !recorded_app, recorded_kind_start, recorded_kind_end. unfold outsec_of.
+  rewrite recorded_outsec, recorded_app, recorded_opt_fill, Hr. reflexivity.
+Qed.
+
+Lemma recorded_class_start st c cn :
+  recorded_syms (class_start_stmts st c cn) =
+  [doc_class_start (linker_symbols_style st) cn; doc_class_end (linker_symbols_style st) cn].
+Proof.
+  unfold class_start_stmts. rewrite recorded_app, <- class_start_doc, <- class_end_doc.
+  destruct (vc_fixed_vram c); [reflexivity|]. destruct (vc_fixed_symbol c); [reflexivity|].
+  assert (E : forall l, recorded_syms (map (fun o => SMaxSelf (vram_class_start (linker_symbols_style st) cn)
+                                                               (vram_class_end (linker_symbols_style st) o)) l) = []).
+  { induction l as [|x r IH]; [reflexivity|]. exact IH. }
+  change (recorded_syms (?x :: ?l)) with (recorded_syms [x] ++ recorded_syms l).
+  unfold recorded_syms at 1. simpl.
+  change (flat_map stmt_recorded ?l) with (recorded_syms l). rewrite E. reflexivity.
+Qed.
+
+Lemma recorded_seg_head st seg :
+  recorded_syms (seg_head st seg) =
+  [doc_rom_start (linker_symbols_style st) (sg_name seg); doc_vram_start (linker_symbols_style st) (sg_name seg)].
+Proof.
+  unfold seg_head. rewrite <- rom_start_doc, <- vram_start_doc. destruct (segment_start_align seg); reflexivity.
+Qed.
+
+Lemma recorded_seg_foot st seg :
+  recorded_syms (seg_foot st seg) =
+  [doc_vram_end (linker_symbols_style st) (sg_name seg); doc_vram_size (linker_symbols_style st) (sg_name seg);
+   doc_rom_end (linker_symbols_style st) (sg_name seg); doc_rom_size (linker_symbols_style st) (sg_name seg)].
+Proof.
+  unfold seg_foot. cbv zeta. rewrite <- vram_end_doc, <- vram_size_doc, <- rom_end_doc, <- rom_size_doc.
+  destruct (segment_end_align seg); destruct (sg_vram_class seg); reflexivity.
+Qed.
+
+Lemma segment_symbols rt st cfg classes seg ws s ws' :
+  add_segment rt st cfg classes seg ws = Ok (s, ws') ->
+  should_emit rt (sg_conds seg) = true ->
+  exists alloc noload,
+    map fst alloc = alloc_sections seg /\ map fst noload = noload_sections seg /\
+    Forall (fun so => Forall (doc_offset_of rt (linker_symbols_style st) seg) (snd so)) (alloc ++ noload) /\
+    recorded_syms s =
+    expected_segment_symbols (linker_symbols_style st) cfg seg
+      (match sg_vram_class seg with Some cn => negb (mem_str cn (ws_emitted ws)) | None => false end)
+      alloc noload.
+Proof.
+  intros H Hinc. apply add_segment_inv in H.
+  destruct H as [[Hex _] | [_ [cls [ws1 [s1 [ws2 [s2 [Ec [E1 [E2 E]]]]]]]]]]; [congruence|]. subst.
+  destruct (write_segment_recorded _ _ _ _ _ _ _ _ _ E1) as [alloc [Ha [Fa Ra]]].
+  destruct (write_segment_recorded _ _ _ _ _ _ _ _ _ E2) as [noload [Hn [Fn Rn]]].
+  exists alloc, noload. split; [exact Ha|]. split; [exact Hn|]. split; [apply Forall_app; split; assumption|].
+  rewrite !recorded_app, Ra, Rn, recorded_seg_head, recorded_seg_foot.
+  unfold expected_segment_symbols.
+  assert (Hcls : recorded_syms cls =
+                 match sg_vram_class seg with
+                 | Some cn => if negb (mem_str cn (ws_emitted ws))
+                              then [doc_class_start (linker_symbols_style st) cn; doc_class_end (linker_symbols_style st) cn]
+                              else []
+                 | None => []
+                 end).
+  { unfold class_part in Ec. destruct (sg_vram_class seg) as [cn|].
+    - destruct (class_get classes cn) as [c|]; [|discriminate].
+      destruct (mem_str cn (ws_emitted ws)); apply ok_inj in Ec; inversion Ec; subst;
+        [reflexivity | apply recorded_class_start].
+    - apply ok_inj in Ec. inversion Ec; subst. reflexivity. }
+  rewrite Hcls. destruct (sg_vram_class seg); simpl; rewrite <- ?app_assoc; reflexivity.
+Qed.
+
+(* ====================================================================== *)
+(* a linker offset never has the name of a section symbol                  *)
+(* ====================================================================== *)
+
+Fixpoint str_rev (s : string) : string :=
+  match s with EmptyString => EmptyString | String c r => (str_rev r ++ String c "")%string end.
+
+Lemma str_rev_app a b : str_rev (a ++ b)%string = (str_rev b ++ str_rev a)%string.
+Proof.
+  induction a as [|c a IH]; simpl.
+  - rewrite str_app_nil_r. reflexivity.
+  - rewrite IH, str_app_assoc. reflexivity.
+Qed.
+
+Ltac suffix_neq :=
+  let H := fresh "H" in
+  unfold_names; intro H; apply (f_equal str_rev) in H;
+  match goal with sty : style |- _ => destruct sty end;
+  cbn [pick fst snd] in H; rewrite ?fmt2, ?fmt3 in H; rewrite ?str_rev_app in H; simpl in H;
+  discriminate.
+
+Lemma offset_neq_sec_start sty name n s : linker_offset sty name <> segment_section_start sty n s.
+Proof. suffix_neq. Qed.
+Lemma offset_neq_sec_end sty name n s : linker_offset sty name <> segment_section_end sty n s.
+Proof. suffix_neq. Qed.
+Lemma offset_neq_sec_size sty name n s : linker_offset sty name <> segment_section_size sty n s.
+Proof. suffix_neq. Qed.
+
+Lemma lookup_app_skip {A} x (news l : list (string * A)) :
+  Forall (fun nv => fst nv <> x) news -> lookup x (news ++ l) = lookup x l.
+Proof.
+  induction 1 as [|[n v] r Hn Hr IH]; [reflexivity|]. simpl in *.
+  destruct (String.eqb x n) eqn:E; [apply String.eqb_eq in E; subst; contradiction | exact IH].
+Qed.
+
+(* ====================================================================== *)
+(* the statements of the files of a group                                  *)
+(* ====================================================================== *)
+
+Lemma group_stmts_emitter sty wild offs g : emitter sty wild offs g ->
+  forall ws s ws', g ws = Ok (s, ws') -> Forall (group_stmt sty offs) s.
+Proof.
+  apply (emitter_rel sty wild offs (fun _ s _ => Forall (group_stmt sty offs) s)).
+  - intros. constructor.
+  - intros. apply Forall_app; split; assumption.
+  - intros. repeat constructor.
+  - intros. repeat constructor.
+  - intros ws name Hn. constructor; [|constructor]. exists name. split; [exact Hn | apply linker_offset_doc].
+Qed.
+
+Lemma group_stmts_emit_section rt sty cfg seg sections base section ws s ws' :
+  emit_section rt sty cfg seg sections base section ws = Ok (s, ws') ->
+  Forall (group_stmt sty (fun name => In name (segment_offset_names rt seg))) s.
+Proof.
+  apply (group_stmts_emitter sty (wildcard_sections seg) (offs_of_segment rt seg)). apply emit_section_emitter.
+Qed.
+
+Local Open Scope Z_scope.
+
+Section GroupExec.
+  Variables env ext : list (string * Z).
+  Variable senv : list osec.
+  Variable final : bool.
+  Variable vma : Z.
+  Variable sub : option Z.
+  Variable outsec : string.
+  Variable sty : style.
+  Variable offs : string -> Prop.
+
+  Local Notation X := (exec_sec_stmt env senv ext final vma sub outsec).
+
+  Definition offset_def (lo hi : Z) (nv : string * Z) : Prop :=
+    sym_between lo hi nv /\ exists name, offs name /\ fst nv = doc_linker_offset sty name.
+
+  Lemma group_step ss s :
+    group_stmt sty offs s ->
+    exists news, l_syms (s_st (X ss s)) = news ++ l_syms (s_st ss) /\
+                 Forall (offset_def (vma + s_off ss) (vma + s_off ss)) news.
+  Proof.
+    destruct s as [t| |p h rc sym e|sym n|sym other|sec|n|n|kp path member sect wild|nm addr at_ nl sb body
+                   |sect|pats wild|body|e|e|c m]; simpl; try contradiction.
+    - destruct p, h, rc, e; try contradiction. intros [name [Hn E]].
+      exists [(sym, vma + s_off ss)]. split; [reflexivity|]. constructor; [|constructor].
+      split; [split; simpl; lia|]. exists name. auto.
+    - intros _. exists []. split; [reflexivity | constructor].
+    - intros _. destruct (place vma sub outsec _ _ _ _) as [[o p] c]. exists []. split; [reflexivity | constructor].
+  Qed.
+
+  Lemma offset_def_weaken lo hi lo' hi' nv : lo' <= lo -> hi <= hi' -> offset_def lo hi nv -> offset_def lo' hi' nv.
+  Proof. intros H1 H2 [[A B] C]. split; [split; lia | exact C]. Qed.
+
+  (* the files of a group only define linker offsets, each with a value between the position before
+     and the position after *)
+  Lemma group_fold_syms l : Forall (group_stmt sty offs) l -> forall ss,
+    nonneg_sizes (l_remaining (s_st ss)) ->
+    exists news, l_syms (s_st (fold_left X l ss)) = news ++ l_syms (s_st ss) /\
+                 Forall (offset_def (vma + s_off ss) (vma + s_off (fold_left X l ss))) news.
+  Proof.
+    induction 1 as [|s r Hs Hr IH]; intros ss Hn.
+    - exists []. split; [reflexivity | constructor].
+    - cbn [fold_left].
+      pose proof (sec_step env ext senv final vma sub outsec ss s Hn) as [L1 [N1 _]].
+      pose proof (sec_fold env ext senv final vma sub outsec r (X ss s) N1) as [L2 _].
+      destruct (IH (X ss s) N1) as [news2 [E2 F2]]. destruct (group_step ss s Hs) as [news1 [E1 F1]].
+      exists (news2 ++ news1). rewrite E2, E1, app_assoc. split; [reflexivity|].
+      apply Forall_app; split; (eapply Forall_impl; [|eassumption]); intro nv; apply offset_def_weaken; lia.
+  Qed.
+End GroupExec.
+
+(* C05: one whole group inside an output section *)
+Lemma group_bracket env senv ext final vma sub outsec rt sty cfg seg sections base section ws files ws' ss :
+  section_syms cfg = true ->
+  emit_section rt sty cfg seg sections base section ws = Ok (files, ws') ->
+  nonneg_sizes (l_remaining (s_st ss)) ->
+  let ss' := fold_left (exec_sec_stmt env senv ext final vma sub outsec)
+                       (section_symbol_start rt sty cfg seg section ++ files ++
+                        section_symbol_end sty cfg seg section) ss in
+  exists S E new news rest,
+    lookup (segment_section_start sty (sg_name seg) section) (l_syms (s_st ss')) = Some S /\
+    lookup (segment_section_end sty (sg_name seg) section) (l_syms (s_st ss')) = Some E /\
+    lookup (segment_section_size sty (sg_name seg) section) (l_syms (s_st ss')) = Some (E - S) /\
+    vma + s_off ss <= S /\ S <= E /\ E = vma + s_off ss' /\
+    l_placed (s_st ss') = l_placed (s_st ss) ++ new /\
+    Forall (placed_between S E outsec) new /\
+    nondecreasing (map pl_addr new) /\
+    l_syms (s_st ss') =
+      (segment_section_size sty (sg_name seg) section, E - S) ::
+      (segment_section_end sty (sg_name seg) section, E) :: news ++
+      (segment_section_start sty (sg_name seg) section, S) :: rest /\
+    Forall (offset_def sty (fun name => In name (segment_offset_names rt seg)) S E) news /\
+    nonneg_sizes (l_remaining (s_st ss')).
+Proof.
+  intros Hc Hf Hn ss'. subst ss'. rewrite !fold_X_app.
+  set (START := segment_section_start sty (sg_name seg) section).
+  set (END_ := segment_section_end sty (sg_name seg) section).
+  set (SIZE := segment_section_size sty (sg_name seg) section).
+  (* start *)
+  pose proof (group_start_aligned env senv ext final vma sub outsec rt sty cfg seg section ss Hc) as [_ [Hle1 _]].
+  destruct (group_start_exec env ext senv final vma sub outsec rt sty cfg seg section ss Hc)
+    as [st1 [E1 [Hl1 [Hp1 Hr1]]]].
+  cbv zeta in Hle1. rewrite E1 in *. cbn [s_off] in Hle1.
+  set (off1 := opt_aligned (lookup section (sections_start_alignment seg))
+                           (opt_aligned (section_start_align seg) (s_off ss))) in *.
+  set (ss1 := SState off1 (s_contents ss) st1).
+  assert (Hn1 : nonneg_sizes (l_remaining (s_st ss1))) by (simpl; rewrite Hr1; exact Hn).
+  (* files *)
+  pose proof (group_stmts_emit_section _ _ _ _ _ _ _ _ _ _ Hf) as Hg.
+  pose proof (sec_fold env ext senv final vma sub outsec files ss1 Hn1) as [L2 [N2 [new [P2 [R2 S2]]]]].
+  destruct (group_fold_syms env ext senv final vma sub outsec sty _ files Hg ss1 Hn1) as [news [Es2 Fs2]].
+  set (ss2 := fold_left (exec_sec_stmt env senv ext final vma sub outsec) files ss1) in *.
+  (* the start symbol is still visible *)
+  assert (Hskip : Forall (fun nv => fst nv <> START) news).
+  { eapply Forall_impl; [|exact Fs2]. intros nv [_ [name [_ En]]]. rewrite En, <- linker_offset_doc.
+    apply offset_neq_sec_start. }
+  assert (Hs2 : lookup START (l_syms (s_st ss2)) = Some (vma + off1)).
+  { rewrite Es2, lookup_app_skip by exact Hskip. exact Hl1. }
+  (* end *)
+  pose proof (group_end_aligned env senv ext final vma sub outsec sty cfg seg section ss2 Hc) as [_ [Hle3 _]].
+  destruct (group_end_exec env ext senv final vma sub outsec sty cfg seg section ss2 Hc)
+    as [st3 [E3 [Hl3 [Hz3 [Ho3 [Hp3 Hr3]]]]]].
+  cbv zeta in Hle3. rewrite E3 in *. cbn [s_off] in Hle3.
+  set (off3 := opt_aligned (lookup section (sections_end_alignment seg))
+                           (opt_aligned (section_end_align seg) (s_off ss2))) in *.
+  assert (Hsl : sym_lookup START (s_st ss2) env ext = Some (vma + off1)) by (apply sym_lookup_defined; exact Hs2).
+  cbn [s_st s_off].
+  (* the exact shape of the symbol table *)
+  assert (Hshape : l_syms st3 = (SIZE, vma + off3 - (vma + off1)) :: (END_, vma + off3) :: l_syms (s_st ss2)).
+  { unfold section_symbol_end in E3. rewrite Hc in E3. rewrite !fold_X_app, !exec_opt_align in E3.
+    rewrite (sec_sym_end_size env ext senv final vma sub outsec START END_ SIZE EDot _ (vma + off1) (vma + off3)) in E3;
+      [| reflexivity | exact Hsl].
+    assert (Hse : String.eqb START END_ = false) by (apply String.eqb_neq; apply sec_start_neq_end).
+    rewrite Hse in E3. inversion E3. reflexivity. }
+  exists (vma + off1), (vma + off3), new, news.
+  (* what was there before the START symbol *)
+  assert (Hst1 : exists rest, l_syms st1 = (START, vma + off1) :: rest).
+  { unfold section_symbol_start in E1. rewrite Hc in E1. rewrite !fold_X_app, !exec_opt_align in E1.
+    cbn [fold_left] in E1. rewrite exec_linker_symbol_dot in E1.
+    match type of E1 with SState _ _ (set_sym _ _ _ ?s0) = _ => exists (l_syms s0) end.
+    inversion E1. reflexivity. }
+  destruct Hst1 as [rest Hst1]. exists rest.
+  split.
+  { destruct (Ho3 START) as [H|H]; [apply sec_start_neq_end | apply sec_start_neq_size | |].
+    - rewrite H. exact Hs2.
+    - change (sym_lookup START (s_st ss2) env ext = None) in H. rewrite Hsl in H. discriminate. }
+  split; [exact Hl3|]. split; [apply Hz3; exact Hsl|].
+  split; [lia|]. split; [simpl in L2; lia|]. split; [reflexivity|].
+  split; [rewrite Hp3, P2; simpl; rewrite Hp1; reflexivity|].
+  split.
+  { eapply Forall_impl; [|exact R2]. intros p [A [B C]]. unfold placed_between. simpl in A. repeat split; try lia.
+    exact C. }
+  split; [exact S2|].
+  split; [rewrite Hshape, Es2; simpl; rewrite Hst1; reflexivity|].
+  split.
+  { eapply Forall_impl; [|exact Fs2]. intro nv. apply offset_def_weaken; simpl; lia. }
+  rewrite Hr3. exact N2.
+Qed.
+
+(* a linker offset lies between its neighbours: what was placed before it is below, what is placed
+   after it is above *)
+Lemma offset_between_neighbours env senv ext final vma sub outsec pre h r name post ss :
+  nonneg_sizes (l_remaining (s_st ss)) ->
+  let ss1 := fold_left (exec_sec_stmt env senv ext final vma sub outsec) pre ss in
+  let ss2 := exec_sec_stmt env senv ext final vma sub outsec ss1 (SAssign false h r name EDot) in
+  let ss' := fold_left (exec_sec_stmt env senv ext final vma sub outsec) post ss2 in
+  ss' = fold_left (exec_sec_stmt env senv ext final vma sub outsec)
+                  (pre ++ [SAssign false h r name EDot] ++ post) ss /\
+  exists v new1 new2,
+    lookup name (l_syms (s_st ss2)) = Some v /\
+    l_placed (s_st ss') = l_placed (s_st ss) ++ new1 ++ new2 /\
+    Forall (fun p => pl_addr p <= v) new1 /\ Forall (fun p => v <= pl_addr p) new2 /\
+    vma + s_off ss <= v /\ v <= vma + s_off ss'.
+Proof.
+  intros Hn ss1 ss2 ss'. split.
+  { unfold ss', ss2, ss1. rewrite !fold_X_app. reflexivity. }
+  pose proof (sec_fold env ext senv final vma sub outsec pre ss Hn) as [L1 [N1 [new1 [P1 [R1 _]]]]].
+  fold ss1 in L1, N1, P1, R1.
+  assert (E2 : ss2 = SState (s_off ss1) (s_contents ss1) (set_sym name (vma + s_off ss1) false (s_st ss1))) by reflexivity.
+  assert (N2 : nonneg_sizes (l_remaining (s_st ss2))) by (rewrite E2; exact N1).
+  pose proof (sec_fold env ext senv final vma sub outsec post ss2 N2) as [L3 [_ [new2 [P3 [R3 _]]]]].
+  fold ss' in L3, P3, R3.
+  exists (vma + s_off ss1), new1, new2.
+  split; [rewrite E2; apply lookup_set_sym_same|].
+  split; [rewrite P3, E2; simpl; rewrite P1, app_assoc; reflexivity|].
+  rewrite E2 in L3, R3. cbn [s_off] in L3, R3.
+  split; [eapply Forall_impl; [|exact R1]; intros p [A [B C]]; lia|].
+  split; [eapply Forall_impl; [|exact R3]; intros p [A [B C]]; lia|].
+  lia.
+Qed.
+
+(* ====================================================================== *)
+(* size = end - start, in the form of Properties/C05.v                     *)
+(* ====================================================================== *)
+
+Lemma size_is_end_minus_start_sec env senv ext final vma sub outsec start end_ size value ss s v :
+  eval_expr env senv ext (s_st ss) (vma + s_off ss) value = Ok v ->
+  sym_lookup start (s_st ss) env ext = Some s ->
+  size <> end_ ->
+  let ss' := fold_left (exec_sec_stmt env senv ext final vma sub outsec) (sym_end_size start end_ size value) ss in
+  exists s',
+    lookup end_ (l_syms (s_st ss')) = Some v /\
+    lookup size (l_syms (s_st ss')) = Some (v - s') /\
+    (start <> size -> sym_lookup start (s_st ss') env ext = Some s') /\
+    (start <> end_ -> s' = s) /\
+    s_off ss' = s_off ss.
+Proof.
+  intros Hv Hs Hne ss'. subst ss'. rewrite (sec_sym_end_size env ext senv final vma sub outsec _ _ _ _ _ s v Hv Hs).
+  cbn [s_st s_off]. exists (if String.eqb start end_ then v else s).
+  split; [apply lookup_two_end; exact Hne|]. split; [apply lookup_two_same|]. split; [|split; [|reflexivity]].
+  - intro Hss. rewrite sym_lookup_set_sym_other by congruence.
+    destruct (String.eqb start end_) eqn:E.
+    + apply String.eqb_eq in E. subst. apply sym_lookup_set_sym_same.
+    + apply String.eqb_neq in E. rewrite sym_lookup_set_sym_other by congruence. exact Hs.
+  - intro H. apply String.eqb_neq in H. rewrite H. reflexivity.
+Qed.
+
+Lemma size_is_end_minus_start_top env senv ext final start end_ size value st s v :
+  String.eqb end_ "." = false -> String.eqb size "." = false ->
+  eval_expr env senv ext st (l_dot st) value = Ok v ->
+  sym_lookup start st env ext = Some s ->
+  size <> end_ ->
+  let st' := fold_left (exec_top_stmt env senv ext final) (sym_end_size start end_ size value) st in
+  exists s',
+    lookup end_ (l_syms st') = Some v /\
+    lookup size (l_syms st') = Some (v - s') /\
+    (start <> size -> sym_lookup start st' env ext = Some s') /\
+    (start <> end_ -> s' = s) /\
+    l_dot st' = l_dot st.
+Proof.
+  intros He Hz Hv Hs Hne st'. subst st'.
+  rewrite (top_sym_end_size env ext senv final _ _ _ _ _ s v He Hz Hv Hs).
+  exists (if String.eqb start end_ then v else s).
+  split; [apply lookup_two_end; exact Hne|]. split; [apply lookup_two_same|]. split; [|split; [|reflexivity]].
+  - intro Hss. rewrite sym_lookup_set_sym_other by congruence.
+    destruct (String.eqb start end_) eqn:E.
+    + apply String.eqb_eq in E. subst. apply sym_lookup_set_sym_same.
+    + apply String.eqb_neq in E. rewrite sym_lookup_set_sym_other by congruence. exact Hs.
+  - intro H. apply String.eqb_neq in H. rewrite H. reflexivity.
+Qed.
+
+(* the size of a vram class: `size = end - start` *)
+Lemma class_size_top env senv ext final sty cn st a b :
+  sym_lookup (vram_class_end sty cn) st env ext = Some a ->
+  sym_lookup (vram_class_start sty cn) st env ext = Some b ->
+  lookup (vram_class_size sty cn)
+         (l_syms (exec_top_stmt env senv ext final st
+                    (linker_symbol (vram_class_size sty cn) (ESub (vram_class_end sty cn) (vram_class_start sty cn))))) =
+  Some (a - b).
+Proof.
+  intros Ha Hb. rewrite top_linker_symbol.
+  - cbn [eval_expr]. rewrite Ha, Hb, assign_ok. apply lookup_set_sym_same.
+  - apply long_not_dot. unfold vram_class_size, tpl_vram_class_size. destruct sty; cbn [pick fst snd];
+      rewrite fmt2, !str_length_app; simpl; lia.
+Qed.
+
+(* ====================================================================== *)
+(* output sections and the two halves of a segment                         *)
+(* ====================================================================== *)
+
+Lemma outsec_post env senv ext final name addr at_ noload sub body st vma :
+  nonneg_sizes (l_remaining st) ->
+  outsec_vma env senv ext addr sub body st = Ok vma ->
+  let st' := exec_outsec env senv ext final name addr at_ noload sub body st in
+  exists size new lma c,
+    0 <= size /\ l_dot st' = vma + size /\
+    l_secs st' = l_secs st ++ [OSec name vma size lma noload c] /\
+    l_placed st' = l_placed st ++ new /\
+    Forall (placed_between vma (vma + size) name) new /\
+    nondecreasing (map pl_addr new) /\
+    nonneg_sizes (l_remaining st') /\ l_discarded st' = l_discarded st.
+Proof.
+  intros Hn Hv st'.
+  destruct (exec_outsec_ok env senv ext final name addr at_ noload sub body st vma Hv)
+    as [Hd [Hp [Hr [_ [Hdis [lma Hs]]]]]].
+  pose proof (sec_fold env ext senv final vma (option_map Z.of_N sub) name body (SState 0 false st) Hn)
+    as [L [N [new [P [R S]]]]].
+  cbn [s_off s_st] in *. eexists. exists new, lma. eexists.
+  split; [exact L|]. split; [exact Hd|]. split; [exact Hs|]. split; [subst st'; rewrite Hp; exact P|].
+  split.
+  { eapply Forall_impl; [|exact R]. intros p [A [B C]]. unfold placed_between. repeat split; try lia. exact C. }
+  split; [exact S|]. split; [subst st'; rewrite Hr; exact N | exact Hdis].
+Qed.
+
+Definition same_layout (st st' : lstate) : Prop :=
+  l_dot st' = l_dot st /\ l_placed st' = l_placed st /\ l_remaining st' = l_remaining st /\
+  l_secs st' = l_secs st /\ l_discarded st' = l_discarded st.
+
+Lemma same_layout_refl st : same_layout st st.
+Proof. repeat split. Qed.
+
+Lemma same_layout_trans a b c : same_layout a b -> same_layout b c -> same_layout a c.
+Proof. intros [A1 [A2 [A3 [A4 A5]]]] [B1 [B2 [B3 [B4 B5]]]]. repeat split; congruence. Qed.
+
+Lemma assign_layout ext final p sym r t st : same_layout st (assign ext final p sym r t st).
+Proof.
+  repeat split; [apply assign_dot | apply assign_placed | apply assign_remaining | apply assign_secs
+                 | apply assign_discarded].
+Qed.
+
+Lemma top_linker_symbol_layout env senv ext final sym e st :
+  String.eqb sym "." = false -> same_layout st (exec_top_stmt env senv ext final st (linker_symbol sym e)).
+Proof. intro H. rewrite top_linker_symbol by exact H. apply assign_layout. Qed.
+
+Lemma kind_start_layout env senv ext final sty cfg seg noload st :
+  same_layout st (fold_left (exec_top_stmt env senv ext final) (sections_kind_start sty cfg seg noload) st).
+Proof.
+  unfold sections_kind_start. destruct (kind_syms cfg); [|apply same_layout_refl].
+  cbn [fold_left]. change (exec_top_stmt env senv ext final ?s SBlank) with s.
+  apply top_linker_symbol_layout. apply eqb_dot_vram_start.
+Qed.
+
+Lemma kind_end_layout env senv ext final sty cfg seg noload st :
+  same_layout st (fold_left (exec_top_stmt env senv ext final) (sections_kind_end sty cfg seg noload) st).
+Proof.
+  unfold sections_kind_end, sym_end_size. destruct (kind_syms cfg); [|apply same_layout_refl].
+  cbn [fold_left]. change (exec_top_stmt env senv ext final st SBlank) with st.
+  eapply same_layout_trans; [apply top_linker_symbol_layout; apply eqb_dot_vram_end|].
+  apply top_linker_symbol_layout. apply eqb_dot_vram_size.
+Qed.
+
+(* one half of a segment at the top level: its output section, framed by the kind symbols *)
+Lemma part_exec env senv ext final rt st cfg seg sections noload ws s ws' lst :
+  write_segment rt st cfg seg sections noload ws = Ok (s, ws') ->
+  exists body lst1 lst2,
+    part_groups rt st cfg seg sections sections ws = Ok (body, ws') /\
+    same_layout lst lst1 /\
+    lst2 = exec_top_stmt env senv ext final lst1 (outsec_of st seg noload body) /\
+    same_layout lst2 (fold_left (exec_top_stmt env senv ext final) s lst).
+Proof.
+  intro H. apply write_segment_inv in H. destruct H as [body [Hb E]]. subst.
+  exists body. eexists. eexists. split; [exact Hb|]. rewrite !fold_T_app. cbn [fold_left].
+  split; [apply kind_start_layout|]. split; [reflexivity|]. apply kind_end_layout.
+Qed.
+
+Lemma halves_bracket env senv ext final rt st cfg seg ws s1 ws1 s2 ws2 lst :
+  write_segment rt st cfg seg (alloc_sections seg) false ws = Ok (s1, ws1) ->
+  write_segment rt st cfg seg (noload_sections seg) true ws1 = Ok (s2, ws2) ->
+  nonneg_sizes (l_remaining lst) ->
+  let lst' := fold_left (exec_top_stmt env senv ext final) (s1 ++ [SBlank] ++ s2) lst in
+  exists new1 new2 o2,
+    l_placed lst' = l_placed lst ++ new1 ++ new2 /\
+    os_name o2 = ("." ++ sg_name seg ++ ".noload")%string /\ 0 <= os_size o2 /\
+    l_dot lst' = os_vma o2 + os_size o2 /\
+    Forall (placed_between (os_vma o2) (os_vma o2 + os_size o2) (os_name o2)) new2 /\
+    nondecreasing (map pl_addr new2) /\
+    ((new1 = [] /\ l_secs lst' = l_secs lst ++ [o2] /\ l_dot lst <= os_vma o2) \/
+     (exists o1, l_secs lst' = l_secs lst ++ [o1; o2] /\
+                 os_name o1 = ("." ++ sg_name seg)%string /\ 0 <= os_size o1 /\
+                 Forall (placed_between (os_vma o1) (os_vma o1 + os_size o1) (os_name o1)) new1 /\
+                 nondecreasing (map pl_addr new1) /\
+                 os_vma o1 + os_size o1 <= os_vma o2)) /\
+    nonneg_sizes (l_remaining lst').
+Proof.
+  intros H1 H2 Hn lst'. subst lst'. rewrite !fold_T_app. cbn [fold_left].
+  destruct (part_exec env senv ext final rt st cfg seg _ false ws s1 ws1 lst H1)
+    as [body1 [a1 [a2 [_ [La1 [Ea2 La3]]]]]].
+  set (lstA := fold_left (exec_top_stmt env senv ext final) s1 lst) in *.
+  change (exec_top_stmt env senv ext final lstA SBlank) with lstA.
+  destruct (part_exec env senv ext final rt st cfg seg _ true ws1 s2 ws2 lstA H2)
+    as [body2 [b1 [b2 [_ [Lb1 [Eb2 Lb3]]]]]].
+  set (lstB := fold_left (exec_top_stmt env senv ext final) s2 lstA) in *.
+  destruct La1 as [A1 [A2 [A3 [A4 A5]]]]. destruct La3 as [C1 [C2 [C3 [C4 C5]]]].
+  destruct Lb1 as [B1 [B2 [B3 [B4 B5]]]]. destruct Lb3 as [D1 [D2 [D3 [D4 D5]]]].
+  (* the noload half always has an address: the aligned location counter *)
+  assert (Hnl : forall (Hna : nonneg_sizes (l_remaining b1)),
+             exists new2 o2, l_placed b2 = l_placed b1 ++ new2 /\ l_secs b2 = l_secs b1 ++ [o2] /\
+               os_name o2 = ("." ++ sg_name seg ++ ".noload")%string /\ 0 <= os_size o2 /\
+               l_dot b2 = os_vma o2 + os_size o2 /\ l_dot b1 <= os_vma o2 /\
+               Forall (placed_between (os_vma o2) (os_vma o2 + os_size o2) (os_name o2)) new2 /\
+               nondecreasing (map pl_addr new2) /\ nonneg_sizes (l_remaining b2)).
+  { intro Hna. unfold outsec_of in Eb2. cbn [exec_top_stmt] in Eb2.
+    pose proof (outsec_post env senv ext final ("." ++ sg_name seg ++ ".noload")%string None None true
+                            (subalign seg) (opt_fill seg ++ body2) b1 _ Hna eq_refl)
+      as [size [new [lma [c [P1 [P2 [P3 [P4 [P5 [P6 [P7 _]]]]]]]]]]].
+    rewrite <- Eb2 in *. exists new. eexists. split; [exact P4|]. split; [exact P3|].
+    cbn [os_name os_size os_vma]. split; [reflexivity|]. split; [exact P1|]. split; [exact P2|].
+    split; [apply align_up_le|]. split; [exact P5|]. split; [exact P6 | exact P7]. }
+  (* the allocatable half: its address may or may not be computable *)
+  unfold outsec_of in Ea2. cbn [exec_top_stmt] in Ea2.
+  assert (Hna1 : nonneg_sizes (l_remaining a1)) by (rewrite A3; exact Hn).
+  destruct (outsec_vma env senv ext (segment_addr (linker_symbols_style st) seg) (subalign seg)
+                       (opt_fill seg ++ body1) a1) as [vma1|e] eqn:Ev.
+  - pose proof (outsec_post env senv ext final ("." ++ sg_name seg)%string _
+                            (Some (segment_rom_start (linker_symbols_style st) (sg_name seg))) false
+                            (subalign seg) (opt_fill seg ++ body1) a1 vma1 Hna1 Ev)
+      as [size [new1 [lma [c [P1 [P2 [P3 [P4 [P5 [P6 [P7 _]]]]]]]]]]].
+    rewrite str_app_nil_r in Ea2.
+    rewrite <- Ea2 in *.
+    assert (Hnb1 : nonneg_sizes (l_remaining b1)) by (rewrite B3, C3; exact P7).
+    destruct (Hnl Hnb1) as [new2 [o2 [Q1 [Q2 [Q3 [Q4 [Q5 [Q6 [Q7 [Q8 Q9]]]]]]]]]].
+    exists new1, new2, o2.
+    split; [rewrite D2, Q1, B2, C2, P4, A2, app_assoc; reflexivity|].
+    split; [exact Q3|]. split; [exact Q4|]. split; [rewrite D1; exact Q5|]. split; [exact Q7|]. split; [exact Q8|].
+    split; [|rewrite D3; exact Q9].
+    right. eexists. split; [rewrite D4, Q2, B4, C4, P3, A4, <- app_assoc; reflexivity|].
+    cbn [os_name os_size os_vma]. split; [reflexivity|]. split; [exact P1|]. split; [exact P5|].
+    split; [exact P6|]. rewrite B1, C1, P2 in Q6. exact Q6.
+  - rewrite (exec_outsec_err _ _ _ _ _ _ _ _ _ _ _ e Ev) in Ea2.
+    rewrite str_app_nil_r in Ea2.
+    assert (Ha2 : same_layout a1 a2) by (rewrite Ea2; repeat split).
+    destruct Ha2 as [E1 [E2 [E3 [E4 E5]]]].
+    assert (Hnb1 : nonneg_sizes (l_remaining b1)) by (rewrite B3, C3, E3; exact Hna1).
+    destruct (Hnl Hnb1) as [new2 [o2 [Q1 [Q2 [Q3 [Q4 [Q5 [Q6 [Q7 [Q8 Q9]]]]]]]]]].
+    exists [], new2, o2.
+    split; [rewrite D2, Q1, B2, C2, E2, A2; reflexivity|].
+    split; [exact Q3|]. split; [exact Q4|]. split; [rewrite D1; exact Q5|]. split; [exact Q7|]. split; [exact Q8|].
+    split; [|rewrite D3; exact Q9].
+    left. split; [reflexivity|]. split; [rewrite D4, Q2, B4, C4, E4, A4; reflexivity|].
+    rewrite B1, C1, E1, A1 in Q6. exact Q6.
+Qed.
+
+(* ====================================================================== *)
+(* the finding: X_alloc_VRAM is taken before the output section header     *)
+(* ====================================================================== *)
+
+Lemma refuted_alloc_start :
+  exists w, gen_normal c05_doc (Runtime [] false) = Ok w /\
+    let st := layout (wo_script w) c05_universe [] in
+    l_errors st = [] /\
+    lookup (segment_vram_start Splat (kind_name (c05_seg "b" 512%N [c05_obj "b.o"]) false)) (l_syms st) = Some 4352 /\
+    lookup (segment_vram_end Splat (kind_name (c05_seg "b" 512%N [c05_obj "b.o"]) false)) (l_syms st) = Some 528 /\
+    lookup (segment_vram_size Splat (kind_name (c05_seg "b" 512%N [c05_obj "b.o"]) false)) (l_syms st) = Some (-3824) /\
+    lookup (segment_vram_start Splat "b") (l_syms st) = Some 512.
+Proof.
+  eexists. split; [vm_compute; reflexivity|]. vm_compute. repeat split; reflexivity.
+Qed.
+
+Lemma names_distinct sty n s :
+  segment_section_start sty n s <> segment_section_end sty n s /\
+  segment_section_start sty n s <> segment_section_size sty n s /\
+  segment_section_end sty n s <> segment_section_size sty n s /\
+  segment_vram_start sty n <> segment_vram_end sty n /\
+  segment_vram_start sty n <> segment_vram_size sty n /\
+  segment_vram_end sty n <> segment_vram_size sty n /\
+  segment_rom_start sty n <> segment_rom_end sty n /\
+  segment_rom_start sty n <> segment_rom_size sty n /\
+  segment_rom_end sty n <> segment_rom_size sty n /\
+  String.eqb (segment_section_end sty n s) "." = false /\ String.eqb (segment_section_size sty n s) "." = false /\
+  String.eqb (segment_vram_end sty n) "." = false /\ String.eqb (segment_vram_size sty n) "." = false /\
+  String.eqb (segment_rom_end sty n) "." = false /\ String.eqb (segment_rom_size sty n) "." = false.
+Proof.
+  repeat split;
+    auto using sec_start_neq_end, sec_start_neq_size, sec_end_neq_size, vram_start_neq_end, vram_start_neq_size,
+      vram_end_neq_size, rom_start_neq_end, rom_start_neq_size, rom_end_neq_size, eqb_dot_sec_end,
+      eqb_dot_sec_size, eqb_dot_vram_end, eqb_dot_vram_size, eqb_dot_rom_end, eqb_dot_rom_size.
+Qed.
